@@ -159,7 +159,10 @@ def main():
             if not failed and not upstream_fail:
                 upstream_fail = True
             broken_detail["lake"] = out[-3000:]
-        driver_ok = (LEAN / ".lake" / "build" / "bin" / "driver").exists() and "Driver" not in " ".join(k for k in broken_detail if k.startswith("build:"))
+        # the model driver is broken only when Driver.lean itself (or something it imports: Basic / Model / Spec) failed -- a failing
+        # Generated / Lemmas / Props module (e.g. Lemmas/SnapDriver.lean) does not touch it
+        driver_broken = any(re.search(r"(^|/)(Driver\.lean|Basic/[^/]+\.lean|Model/[^/]+\.lean|Spec/[^/]+\.lean)$", k[len("build:"):]) for k in broken_detail if k.startswith("build:"))
+        driver_ok = (LEAN / ".lake" / "build" / "bin" / "driver").exists() and not driver_broken
         # optional second driver that runs the REGENERATED definitions of this property (translator validation streams);
         # when it does not build (a generated module is broken) those streams are skipped -- the translate / theorem obligations already say so
         gen_exe = None
